@@ -7,9 +7,13 @@ A7 = 'A7: z3 / cvc5 answers are believed'
 
 PROPS = {
     'C06': dict(
-        modules=['contracts.dtw_matrix_py'],
-        contracts=['dtw._distance_matrix_length', 'dtw._complete_block', 'dtw._distance_matrix_idxs'],
-        lemmas=['LenFullClosed', 'LenRectClosed', 'RowsBefore'],
+        modules=['contracts.dtw_matrix_py', 'contracts.dtw_matrix_c'],
+        contracts=['dtw._distance_matrix_length', 'dtw._complete_block', 'dtw._distance_matrix_idxs',
+                   'dd_dtw.c::dtw_block_is_valid', 'dd_dtw.c::dtw_distances_length',
+                   'dd_dtw.c::dtw_distances_ptrs', 'dd_dtw.c::dtw_distances_ndim_ptrs',
+                   'dd_dtw.c::dtw_distances_matrix', 'dd_dtw.c::dtw_distances_ndim_matrix',
+                   'dd_dtw.c::dtw_distances_matrices', 'dd_dtw.c::dtw_distances_ndim_matrices'],
+        lemmas=['LenFullClosed', 'LenRectClosed', 'RowsBefore', 'RowsBeyond', 'LenFullBeyond', 'LenRowsNonneg'],
         level='proof',
         level_text='Unbounded proof obligations (z3/cvc5) generated from the real Python/C functions that compute block lengths, pair order and the condensed layout; postcondition = row-major rank of the selected pairs, for every block and every number of series.',
         level_note='Trusted: dvc encoding of Python/C semantics (A1/A2), NumPy model (A3), solvers (A7). The per-pair value is the contract of the distance routine (C01/C02), not re-proved here.',
